@@ -115,3 +115,16 @@ PROPS["C18"] = dict(
     level_text="Sampled trees, exact oracle per page (unique ids and markers).",
     level_note="Trusted base: pyref/pdfgen.py, pyref/pdf.py page flattener.",
 )
+
+PROPS["C19"] = dict(
+    title="Damaged cross-reference data is reconstructed faithfully",
+    level="fault_enumeration",
+    exhaustive=True,
+    technique="fault enumeration: every damage operation of a fixed catalogue (offsets shifted/zeroed/swapped, n/f flipped, generation corrupted, subsection start/count wrong, table / trailer / startxref deleted or pointing elsewhere, %%EOF stripped, garbage appended, CR-only line ends) applied to generated valid single-revision files; the library's view of catalog, page count and every object value (canonical form) after each damage is compared with its own view of the intact file; hook events tell whether the recovery path really ran",
+    stages=[py("pyref.checks.c19", args={"phase": "gen"}), rust(id="OBS", args={"dir": "{out}/cases"}), py("pyref.checks.c19", args={"phase": "check"})],
+    rule="base files from the independent writer (1-3 pages, fonts, info, extra objects and streams, shuffled object order, every fourth with object-header look-alikes inside stream data) x every single damage of the catalogue (23 ops, all enumerated per file; thorough adds sampled pairs) x presets default/tolerant/skip_errors. Every (file, damage) is non-trivial; distinct by (file, damage)",
+    assumptions=["objects are compared as values (dictionaries order-free, streams by dictionary + raw-data hash) against the same preset's reading of the intact file"],
+    floors={"quick": {"evaluations": 3000, "distinct": 3000, "counters": {"observations": 9000, "recovery_path_taken": 2000}}, "thorough": {"evaluations": 30000, "distinct": 30000}},
+    level_text="All single damages of the catalogue are enumerated for every generated file (exhaustive over the catalogue, sampled over files and over damage pairs).",
+    level_note="Trusted base: pyref/pdfgen.py for the intact files; the library's own intact reading is the comparison baseline.",
+)
